@@ -29,21 +29,17 @@ End TyInd.
 
 (* ------------------------------------------------------------------ regenerated arithmetic *)
 
-Lemma pad_spec : forall n, (pad n = (n + 31) / 32 * 32)%nat.
-Proof.
-  intros n. unfold pad, gen_pad.
-  rewrite <- (Nat2Z.id ((n + 31) / 32 * 32)).
-  f_equal. rewrite Nat2Z.inj_mul, Nat2Z.inj_div, Nat2Z.inj_add. reflexivity.
-Qed.
+(* the regenerated padding is the ABI's: the least multiple of 32 that is >= n
+   (proved by lia, so any extensionally equal rewrite of the Python expression passes) *)
+Lemma pad_spec : forall n, Z.of_nat (pad n) = (Z.of_nat n + 31) / 32 * 32.
+Proof. intros n. unfold pad, gen_pad. lia. Qed.
 
 Lemma pad_ge : forall n, (n <= pad n)%nat.
 Proof. intros n. unfold pad, gen_pad. lia. Qed.
 
 Lemma head_size_spec : forall x, head_size x = if e_static x then e_size x else 32%nat.
 Proof.
-  intros x. unfold head_size, gen_head_size. destruct (e_static x).
-  - apply Nat2Z.id.
-  - reflexivity.
+  intros x. unfold head_size, gen_head_size. destruct (e_static x); cbn [negb]; lia.
 Qed.
 
 Lemma gen_consts :
